@@ -107,7 +107,7 @@ CHECKS.update({
          'same for Skeleton, Node, Edge. The list of direction-free edge types and the edge-type spellings are regenerated from the source and '
          'proved equal to the modelled ones. Tied to the code by comparing 11 comparisons per pair on permuted rebuilds, single-edit neighbours and '
          'independent histories, plus a structural predicate evaluated on the implementation.',
-    note=TB + 'Cross-class comparison is outside the property (same-class pairs only).',
+    note=TB + 'change_edge_type, replace_edge, delete_node and delete_edge are additionally TRANSLATED from causal_graph.py on every run (tools/translate_mutators.py -> MutGenRollback.v, try / except / re-raise as written) and proved equal to the model in result AND leftover state; trusted table PyRtMut.v; a refusal of the translator falls back to the hand-written model and its correspondence (DESIGN 3.6). Cross-class comparison is outside the property (same-class pairs only).',
     technique='Coq proof of equality = canonical-form equality; correspondence on graph pairs', design='§7 C07'),
  'C14': dict(
     text='Machine-checked proofs about the model of get_minimal_graph (loop as written: sorted edges, first-wins, one-orientation existence test): '
